@@ -422,9 +422,14 @@ def misc_case(item):
             except ValueError as e:
                 # the documented rejection of this class
                 raise SyntaxError(str(e))
+        from tlslite.x509certchain import X509CertChain
         chain, _ = W.load_cred("c_rsa")
+        other, _ = W.load_cred("rsa")
+        third, _ = W.load_cred("c_ecdsa")
+        chain2 = X509CertChain(list(chain.x509List) + list(other.x509List))
+        chain3 = X509CertChain(list(chain2.x509List) + list(third.x509List))
         vals = []
-        for cc in (None, chain):
+        for cc in (None, X509CertChain([]), chain, chain2, chain3):
             for sni in (bytearray(), bytearray(b"host.example")):
                 for etm in (False, True):
                     for ems in (False, True):
@@ -442,6 +447,16 @@ def misc_case(item):
         for cut in range(0, len(d), step):
             check("truncate@%d" % cut, fn, d[:cut])
         check("trailing", fn, d + b"\x00")
+        # every byte of the framing region nudged (length fields of the
+        # certificate list and its entries among them), chains of 1-3
+        for d3 in vals:
+            if len(d3) < 600:
+                continue
+            for pos in range(0, 140):
+                for delta in (1, -1, 7):
+                    b = bytearray(d3)
+                    b[pos] = (b[pos] + delta) & 0xff
+                    check("byte[%d]%+d" % (pos, delta), fn, bytes(b))
         for ver in (0, 1, 2, 3, 255):
             d2 = bytes([ver]) + d[1:] if d[0] in (0, 1, 2) else d
             check("version=%d" % ver, fn, d2)
